@@ -1,6 +1,7 @@
 pub mod engine;
 pub mod gen;
 pub mod mflat;
+pub mod mfold;
 pub mod spec;
 pub mod known;
 pub mod props;
